@@ -624,6 +624,9 @@ func runFrame(fr *frame) {
 				}
 			}
 			fr.i.steps++
+			if fr.i.steps&0xfffff == 0 && heapTooLarge() {
+				panic(engineAbort{kind: abortTruncated, msg: "engine memory guard (heap above 20 GiB)"})
+			}
 			if fr.i.steps > fr.i.maxSteps && fr.i.maxSteps > 0 {
 				panic(engineAbort{kind: abortTruncated, msg: "step bound"})
 			}
@@ -705,3 +708,10 @@ func doRecover(caller *frame) value {
 	return iface{}
 }
 
+
+// heapTooLarge is the engine's memory guard: all workers share one heap.
+func heapTooLarge() bool {
+	var m runtime.MemStats
+	runtime.ReadMemStats(&m)
+	return m.HeapAlloc > 20<<30
+}
